@@ -108,6 +108,20 @@ CasesC03(lazy) ==
                     <<L(<<S("c"), S("z.*")>>), Fails>>, <<L(<<S("c.*"), S("nope")>>), Fails>>,
                     <<I("7"), Chains(<< <<"a", "a.b">> >>)>>,
                     <<EmptyList, Chains(<< <<"a", "a.b">> >>)>> } }
+  (* files with unsupported extensions next to the layers: never a parent, never a match of a wildcard *)
+  \cup { Case(FsOf(<<Plain("a", rot, 1), Plain("c", rot, 2), Plain("c.d", rot, 3), WithParent("a.b", rot, 6, pv[1])>>, <<>>)
+              @@ ((W \o "/c.txt") :> [kind |-> "other"]) @@ ((W \o "/c.e.ini") :> [kind |-> "other"]) @@ ((W \o "/a.md") :> [kind |-> "other"])
+              @@ ((W \o "/zz.txt") :> [kind |-> "other"]),
+              <<"a.b." \o ExtAt(6, rot)>>, FALSE, "/", "otherfiles", pv[2])
+         : rot \in {0, 1},
+           pv \in { <<S("c"), Chains(<< <<"c", "a.b">> >>)>>,
+                    <<S("c.*"), Chains(<< <<"c", "c.d", "a.b">> >>)>>,
+                    <<S("*"), Chains(<< <<"a", "a.b">>, <<"c", "a.b">> >>)>>,
+                    <<S("zz"), Fails>>, <<S("c.e"), Fails>>,
+                    <<EmptyList, Chains(<< <<"a", "a.b">> >>)>> } }
+  (* the filename rule with only an unsupported file where the parent should be *)
+  \cup { Case(FsOf(<<Plain("q.r", 0, 1)>>, <<>>) @@ ((W \o "/q.txt") :> [kind |-> "other"]),
+              <<"q.r.yaml">>, FALSE, "/", "otherfiles", Fails) : dummy \in {1} }
   (* $parent in the second document of a two-document file; conflicting directives *)
   \cup { Case(FsOf(<<Plain("a", 0, 1), Plain("c", 0, 2),
                      <<"a.b", "yaml", <<LayerDoc("a.b", <<>>), LayerDoc("a.b#2", [pk \in {"$parent"} |-> pv[1]])>> >> >>, <<>>),
